@@ -15,7 +15,7 @@
    the DelayedCall armed with that delay at issue fires"; that the reactor fires it on time is Twisted's business. *)
 From AV Require Import Base.Util Model.Framing Proofs.BrokerClientInv.
 From AV Require Model.BrokerClient.
-From AV Require Import Model.ClientReq Proofs.ClientReqC11 Proofs.ClientReqC11b Proofs.ClientReqC11c Proofs.ClientReqC11d Proofs.ClientReqErr.
+From AV Require Import Model.ClientReq Proofs.ClientReqC11 Proofs.ClientReqC11b Proofs.ClientReqC11c Proofs.ClientReqC11d Proofs.ClientReqC11e Proofs.ClientReqErr.
 
 (* Issue: a request that is accepted (the call raises nothing) arms exactly one DelayedCall, with delay
    max(timeout, min_timeout) (timeout alone when no minimum is given); from ANY state, for any node, any flags. *)
@@ -174,6 +174,56 @@ Theorem C11_brokerclients_inv : forall g evs i b,
 Proof. exact c11_brokerclients_inv. Qed.
 Print Assumptions C11_brokerclients_inv.
 
+(* THE LAST SENTENCE, composed ("with disconnect-on-timeout the silent connection is dropped and the remaining unanswered
+   requests are re-sent on a new one").  Any reachable state with disconnect_on_timeout set, an unresolved direct request
+   (i, h) on a CONNECTED, open broker client b: the step in which its DelayedCall fires outputs exactly
+   [the request fails with RequestTimedOutError; loseConnection on b's connection].  Then the loss notification writes
+   nothing, and at the next connection-up of b the writes (cwrites: (broker client, correlation id) of every OWrite, in
+   order) are exactly the entries of b's table at the moment of the timeout that are not cancelled, except the timed-out
+   one - i.e. (M7's invariant: a connected broker client's table holds exactly the written requests that await a reply)
+   the OTHER unanswered requests of b, each once, in table = issue order.  (M7's re-send, C10_resend, lifted through
+   C11_brokerclients_inv; [others h r] = r is not cancelled and is not handle h.) *)
+Theorem C11_drop_and_resend : forall g evs i b h d t to,
+  g_dot (c_cfg (fst (run (init g) evs))) = true -> nth_error (c_bcs (fst (run (init g) evs))) i = Some b ->
+  nth_error (b_reqs b) h = Some (mkCreq (Direct d) (Some t) to) ->
+  BrokerClient.s_proto (b_st b) = true -> BrokerClient.s_down (b_st b) = BrokerClient.DNone ->
+  exists C1 C2 o2 C3 o3,
+    step (fst (run (init g) evs)) (ETimer t) = (C1, [OReq d RTimedOut; OLose i]) /\ step C1 (ELost i) = (C2, o2)
+    /\ step C2 (EConnOk i) = (C3, o3) /\ cwrites o2 = []
+    /\ cwrites o3 = map (fun r => (i, BrokerClient.r_id r)) (filter (others h) (BrokerClient.t_reqs (BrokerClient.s_t (b_st b)))).
+Proof. exact c11_drop_and_resend. Qed.
+Print Assumptions C11_drop_and_resend.
+
+(* Frame of C11_bound: the timeout step touches nothing but the timed-out request - configuration, self.clients, broker
+   table, caches, correlation id, close bookkeeping, operations, direct requests, the timer table, bootstrap connections
+   and every other broker client are as before; in broker client i only closure h changes (disarmed, marked timed out)
+   and its M7 state makes exactly the cancel step of handle h (plus the drop request, which changes no state). *)
+Theorem C11_bound_frame : forall g evs i b h d t to,
+  nth_error (c_bcs (fst (run (init g) evs))) i = Some b -> nth_error (b_reqs b) h = Some (mkCreq (Direct d) (Some t) to) ->
+  exists C' o, step (fst (run (init g) evs)) (ETimer t) = (C', o)
+    /\ c_cfg C' = c_cfg (fst (run (init g) evs)) /\ c_clients C' = c_clients (fst (run (init g) evs))
+    /\ c_brokers C' = c_brokers (fst (run (init g) evs)) /\ c_topics C' = c_topics (fst (run (init g) evs))
+    /\ c_corr C' = c_corr (fst (run (init g) evs)) /\ c_dl C' = c_dl (fst (run (init g) evs)) /\ c_wait C' = c_wait (fst (run (init g) evs))
+    /\ c_ops C' = c_ops (fst (run (init g) evs)) /\ c_direct C' = c_direct (fst (run (init g) evs))
+    /\ c_timers C' = c_timers (fst (run (init g) evs)) /\ c_boots C' = c_boots (fst (run (init g) evs))
+    /\ (forall j, j <> i -> nth_error (c_bcs C') j = nth_error (c_bcs (fst (run (init g) evs))) j)
+    /\ exists b', nth_error (c_bcs C') i = Some b' /\ b_node b' = b_node b /\ b_timer b' = b_timer b
+                  /\ b_reqs b' = nth_upd (b_reqs b) h (fun q => mkCreq (q_owner q) None true)
+                  /\ BrokerClient.step (b_st b) (BrokerClient.ECancel h) = (b_st b', [BrokerClient.ODef h BrokerClient.FailCancelled]).
+Proof. exact c11_bound_frame. Qed.
+Print Assumptions C11_bound_frame.
+
+(* Issue, for ANY owner - in particular a request made on behalf of a broker-agnostic operation (each broker it tries):
+   in any reachable state a _make_request_to_broker call that returns a pending Deferred has armed exactly one
+   DelayedCall - the newest timer name - with max(timeout, min_timeout), and that name is recorded in the new closure
+   (so C11_timer_released / C11_bound_any / C11_timer_never_rearmed apply to it). *)
+Theorem C11_timer_at_make_request : forall g evs i rid expect mint ow C' h out,
+  make_req (fst (run (init g) evs)) i rid expect mint ow = (C', MPending h, out) ->
+  filter is_k2 out = [OSched (length (c_timers C') - 1) 2 (delay_of (fst (run (init g) evs)) mint)]
+  /\ creq_at C' i h = Some (mkCreq ow (Some (length (c_timers C') - 1)%nat) false).
+Proof. exact c11_timer_at_make_req. Qed.
+Print Assumptions C11_timer_at_make_request.
+
 (* THE MODEL'S "cannot happen" BRANCHES CANNOT HAPPEN.  Model/ClientReq.v emits OErr k where the code has no behaviour to
    speak of (a Deferred firing for a request nobody made, an operation that is not waiting for the request that fired,
    a timer to cancel that was never armed, a broker client closed twice, a reply before the request ..).  In every run
@@ -263,6 +313,15 @@ Example id_reserved_nonvacuous :
 Proof.
   vm_compute. do 3 eexists. do 4 (split; [reflexivity|]). split; [left; reflexivity|]. split; reflexivity.
 Qed.
+
+(* C11_drop_and_resend is not vacuous: a connected, open broker client with two unresolved requests, disconnect_on_timeout *)
+Example drop_and_resend_nonvacuous :
+  let C := fst (run (init ex_cfg) [EUpdate [(1, 5)] false; ESend 1 true (-1); ESend 1 true 30000; EConnOk 0]) in
+  exists b, g_dot (c_cfg C) = true /\ nth_error (c_bcs C) 0 = Some b
+    /\ nth_error (b_reqs b) 0 = Some (mkCreq (Direct 0) (Some 0%nat) false)
+    /\ BrokerClient.s_proto (b_st b) = true /\ BrokerClient.s_down (b_st b) = BrokerClient.DNone
+    /\ map (fun r => (0%nat, BrokerClient.r_id r)) (filter (others 0) (BrokerClient.t_reqs (BrokerClient.s_t (b_st b)))) = [(0%nat, 2)].
+Proof. vm_compute. eexists. repeat split. Qed.
 
 (* the exception in C11_no_anomaly is real: a malformed metadata payload handed to load_metadata_for_topics' handler *)
 Example anomaly_30_is_malformed_metadata :
